@@ -244,6 +244,27 @@ def n16_unreachable(toks, counts):
 
 
 
+def n17_closure_wildcard(toks, counts):
+    """N17: a closure that ignores its only argument, `|_| body`, is written `|_c| body` (Verus accepts only variables as
+    closure parameters). Only the exact form at the start of an expression -- after `(`, `,`, `=` or `=>` -- is touched, so
+    an alternative `a | _ | b` of a match pattern is not."""
+    out = []
+    i, n = 0, len(toks)
+    while i < n:
+        t = toks[i]
+        if is_p(t, "|") and i + 2 < n and toks[i + 1].kind == "id" and toks[i + 1].text == "_" and is_p(toks[i + 2], "|") \
+                and out and out[-1].kind == "punct" and out[-1].text in ("(", ",", "=", ">"):
+            out.append(t)
+            out.append(toks[i + 1].clone(text="_c"))
+            out.append(toks[i + 2])
+            counts["N17"] = counts.get("N17", 0) + 1
+            i += 3
+            continue
+        out.append(t)
+        i += 1
+    return out
+
+
 def n6_debug_assert(toks, counts):
     out = []
     i, n = 0, len(toks)
@@ -809,6 +830,7 @@ def apply_all(toks, repo, opts, notes):
     toks = n6_debug_assert(toks, counts)
     toks = n14_mut_self(toks, counts)
     toks = n16_unreachable(toks, counts)
+    toks = n17_closure_wildcard(toks, counts)
     if opts.get("n15"):
         toks = n15_errmsg(toks, counts)
     if opts.get("n13"):
